@@ -597,7 +597,13 @@ AtMostOnce == \A i \in 1..Len(st.starts) :
                     <= A(st.starts[i][1]).attempts
 (* C03: a body never starts with an absent / hidden / failed / Recurrent input *)
 CleanStarts == st.badstart = {}
-(* C19 (model level): at most one save per node outside recurrent sub-graphs *)
+(* C06: in a pipeline of plain Input dependencies, whenever the loop is idle and every node of smaller depth has its
+   result, every node of the next depth has been started (its body is in flight or done) - whatever is held open *)
+SiblingsConcurrent ==
+    (G.prog.plain /\ Running /\ Len(st.ready) = 0 /\ st.tasks[1].stack # <<>> /\ st.tasks[1].stack[1].pc = "r1") =>
+        \A n \in DOMAIN G.prog.depth :
+            (G.prog.depth[n] >= 0 /\ \A m \in DOMAIN G.prog.depth : (G.prog.depth[m] >= 0 /\ G.prog.depth[m] < G.prog.depth[n]) => HasRes(st, m))
+                => n \in st.proc
 (* C01/C05: value / failure as the reference semantics (Dataflow.tla) says for the instance's program *)
 SemOfRun(r) == Sem(G.prog, G.prog.runs[r], r).r
 SemR == SemOfRun(1)
